@@ -61,20 +61,47 @@ Entries ==
     [e |-> "SigningKeyPair::from_secret_key (stored key)",      ovh |-> 0, fam |-> "key"],
     [e |-> "KeyPair::from_slices",                 ovh |-> 0,  fam |-> "key"],
     [e |-> "SigningKeyPair::from_slices",          ovh |-> 0,  fam |-> "key"],
-    [e |-> "StackByteArray::try_from",             ovh |-> 0,  fam |-> "key"] }
+    [e |-> "StackByteArray::try_from",             ovh |-> 0,  fam |-> "key"],
+    \* the receiver's message buffer has a size of its own (it is not cut to the attacker's input): family "fixed"
+    [e |-> "crypto_secretbox_open_easy (receiver buffer of fixed size)",       ovh |-> 16, fam |-> "fixed"],
+    [e |-> "crypto_secretbox_open_detached (receiver buffer of fixed size)",   ovh |-> 0,  fam |-> "fixed"],
+    [e |-> "crypto_box_open_easy (receiver buffer of fixed size)",             ovh |-> 16, fam |-> "fixed"],
+    [e |-> "crypto_box_open_detached (receiver buffer of fixed size)",         ovh |-> 0,  fam |-> "fixed"],
+    [e |-> "crypto_box_open_detached_afternm (receiver buffer of fixed size)", ovh |-> 0,  fam |-> "fixed"],
+    [e |-> "crypto_box_seal_open (receiver buffer of fixed size)",             ovh |-> 48, fam |-> "fixed"],
+    [e |-> "crypto_secretstream_pull (receiver buffer of fixed size)",         ovh |-> 17, fam |-> "fixed"],
+    [e |-> "crypto_sign_open (receiver buffer of fixed size)",                 ovh |-> 64, fam |-> "fixed"],
+    [e |-> "secretstream Tag::from(u8), every byte",                           ovh |-> 0,  fam |-> "key"],
+    \* a fixed-length item (MAC, signature, box tag, stream header) in a container that has no length of its own (Vec): the
+    \* object API takes any ByteArray<N>, and what arrives from the wire arrives in a Vec.  ovh is the fixed length: family "vecheld"
+    [e |-> "Auth::compute_and_verify (MAC held in a Vec)",                     ovh |-> 32, fam |-> "vecheld"],
+    [e |-> "Auth::new/update/verify (MAC held in a Vec)",                      ovh |-> 32, fam |-> "vecheld"],
+    [e |-> "OnetimeAuth::compute_and_verify (MAC held in a Vec)",              ovh |-> 16, fam |-> "vecheld"],
+    [e |-> "OnetimeAuth::new/update/verify (MAC held in a Vec)",               ovh |-> 16, fam |-> "vecheld"],
+    [e |-> "SignedMessage::from_parts+verify (signature held in a Vec)",       ovh |-> 64, fam |-> "vecheld"],
+    [e |-> "IncrementalSigner::verify (signature held in a Vec)",              ovh |-> 64, fam |-> "vecheld"],
+    [e |-> "DryocSecretBox::from_parts+decrypt (tag held in a Vec)",           ovh |-> 16, fam |-> "vecheld"],
+    [e |-> "DryocBox::from_parts+decrypt (tag held in a Vec)",                 ovh |-> 16, fam |-> "vecheld"],
+    [e |-> "DryocBox::from_parts+precalc_decrypt (tag held in a Vec)",         ovh |-> 16, fam |-> "vecheld"],
+    [e |-> "DryocBox::from_parts+unseal (tag held in a Vec)",                  ovh |-> 16, fam |-> "vecheld"],
+    [e |-> "DryocStream::init_pull (header held in a Vec)",                    ovh |-> 24, fam |-> "vecheld"] }
 
 LenClasses == {"empty", "below_overhead", "exactly_overhead", "above_overhead"}
-Contents == {"zeros", "ones", "random", "valid_prefix", "valid_mutated", "authentic"}
+Contents == {"zeros", "ones", "random", "valid_prefix", "valid_mutated", "authentic", "authentic_extended"}
 Outcomes == {"Ok", "Err", "Panic", "Abort", "HugeAlloc"}
 
 Possible(en, lc, ct) ==
   /\ (lc = "below_overhead" => en.ovh > 1) /\ (lc = "empty" => TRUE)
   /\ (ct = "authentic" => lc \in {"exactly_overhead", "above_overhead"})
+  /\ (en.fam = "vecheld" /\ ct = "authentic" => lc = "exactly_overhead")          \* the genuine item has the fixed length
+  /\ (ct = "authentic_extended" => en.fam = "vecheld" /\ lc = "above_overhead")   \* the genuine item, then more bytes
 
 Short(en, lc) == en.ovh > 0 /\ lc \in {"empty", "below_overhead"}
 
 Allowed(en, lc, ct) ==
   IF Short(en, lc) THEN {"Err"}
+  ELSE IF en.fam = "vecheld" /\ lc # "exactly_overhead" THEN {"Err"}   \* an item of any other length is refused, whatever it holds
+  ELSE IF en.fam = "fixed" THEN {"Ok", "Err"}   \* an authentic box that does not fit the receiver's buffer may be refused
   ELSE IF ct = "authentic" THEN {"Ok"}
   ELSE {"Ok", "Err"}
 
